@@ -30,15 +30,18 @@ def trace_consts(c, judge):
 
 
 def model_and_histories(c, judge, extra_skeletons=()):
-    off = {"Dev_C12_InputMomentum": False, "Dev_C10_GroupSizeLost": False}
+    off = {"Dev_C12_InputMomentum": False, "Dev_C10_GroupSizeLost": False, "StreamlineTypeTest": True}
     c.mc("Lifecycle", life_cfg(c, "MC_Lifecycle.cfg", 4 if c.quick else 5, "all", off, INVS, PROPS), workers=12, timeout=1500,
          require_actions=["Quantize", "ActForward", "ActEnterCalib", "ActCalibBatch", "ActRaiseIn", "ActExitCalib", "ActFreeze", "ActOptStep", "ActSave", "ActDeepCopy"] + ([] if c.quick else ["ActLoad"]))
     if judge == "C12":
-        c.mc_expect_violation("Lifecycle", life_cfg(c, "MC_dev.cfg", 4, "calib", {"Dev_C12_InputMomentum": True, "Dev_C10_GroupSizeLost": False}, (), ["EmaLawStep"]), "EmaLawStep")
+        c.mc_expect_violation("Lifecycle", life_cfg(c, "MC_dev.cfg", 4, "calib", {"Dev_C12_InputMomentum": True, "Dev_C10_GroupSizeLost": False, "StreamlineTypeTest": True}, (), ["EmaLawStep"]), "EmaLawStep")
+        # streamlining (outside the listed properties, evidence only): the documented intent holds in the model, the as-built type test breaks it
+        c.mc("Lifecycle", life_cfg(c, "MC_streamline.cfg", 4, "calib", {"Dev_C12_InputMomentum": False, "Dev_C10_GroupSizeLost": False, "StreamlineTypeTest": False}, (), ["StreamlineKeepsConsumers"]), workers=8)
+        c.mc_expect_violation("Lifecycle", life_cfg(c, "MC_streamline_dev.cfg", 4, "calib", {"Dev_C12_InputMomentum": False, "Dev_C10_GroupSizeLost": False, "StreamlineTypeTest": True}, (), ["StreamlineKeepsConsumers"]), "StreamlineKeepsConsumers")
     if judge == "C10":
-        c.mc_expect_violation("Lifecycle", life_cfg(c, "MC_dev.cfg", 5, "serial", {"Dev_C12_InputMomentum": False, "Dev_C10_GroupSizeLost": True}, (), ["RoundTripDenotation"]), "RoundTripDenotation")
+        c.mc_expect_violation("Lifecycle", life_cfg(c, "MC_dev.cfg", 5, "serial", {"Dev_C12_InputMomentum": False, "Dev_C10_GroupSizeLost": True, "StreamlineTypeTest": True}, (), ["RoundTripDenotation"]), "RoundTripDenotation")
     devs = c.dev_constants(DEVS)
-    mdevs = {"Dev_C12_InputMomentum": devs["Dev_C12_InputMomentum"], "Dev_C10_GroupSizeLost": devs["Dev_C10_GroupSizeLost"]}
+    mdevs = {"Dev_C12_InputMomentum": devs["Dev_C12_InputMomentum"], "Dev_C10_GroupSizeLost": devs["Dev_C10_GroupSizeLost"], "StreamlineTypeTest": True}
     rnd = random.Random(c.seed)
     sks = []
     stats = {}
